@@ -28,6 +28,8 @@ package executor
 //@   ensures[C17,C17c] err == nil ==> !old(actionPaused(e, id)) && actionSetIs(e, id, true)
 //@   ensures[C17,C17c] err != nil ==> ks_i32 == old(ks_i32)
 //@   ensures[C17,C17c] okAction(id) && !old(actionPaused(e, id)) ==> err == nil
+//   the store invariant behind the export (only supported identifiers are ever paused) is preserved
+//@   ensures[C17] (forall k int trigger(old(ks_i32)[e.PausedActions][k]) :: old(ks_i32)[e.PausedActions][k] ==> okAction(k)) ==> (forall k int trigger(ks_i32[e.PausedActions][k]) :: ks_i32[e.PausedActions][k] ==> okAction(k))
 
 // Genesis (C17): on a store without paused actions, a valid genesis initialises without error and
 // afterwards exactly the listed actions are paused; no other collection is touched.
@@ -82,3 +84,37 @@ package executor
 //@ func (s queryServer) IsActionPaused(ctx, req) (resp, err)
 //@   requires[base] s.Executor != nil
 //@   ensures[C09] err == nil ==> resp != nil && req != nil && resp.IsPaused == actionPaused(s.Executor, actionByName(req.ActionId))
+
+// ---------------------------------------------------------------------------------------------
+// Export (C17): the exported list is the enumeration of the stored set (Iterate loop).
+// ---------------------------------------------------------------------------------------------
+//@ macro aset(e) = ks_i32[e.PausedActions]
+// Store invariant: only supported action identifiers are ever paused (SetPausedAction validates; proved there).
+//@ macro storedActionsOK(e) = forall k int trigger(aset(e)[k]) :: aset(e)[k] ==> okAction(k)
+//@ func (e *Executor) GetPausedActions(ctx) (ids, err)
+//@   requires[inv] e != nil
+//@   requires[inv] storedActionsOK(e)
+//@   ensures[C17] err == nil                         // (A-COLL-OK, store invariant)
+//@   ensures[C17] enumFactsI32(aset(e))              // handed on from the iterator's spec (A-COLL-ENUM)
+//@   modifies it_pos, it_set
+//@   loop 0 invariant[C17] it_set[deref(iter)] == old(aset(e)) && len(paused) == it_pos[deref(iter)] && it_pos[deref(iter)] >= 0 && it_pos[deref(iter)] <= enumLenI32(old(aset(e)))
+//@   loop 0 invariant[C17] forall j int :: 0 <= j && j < len(paused) ==> paused[j] == enumAtI32(old(aset(e)), j)
+//@   ensures[C17] err == nil ==> len(ids) == enumLenI32(aset(e)) && forall j int trigger(ids[j]) :: 0 <= j && j < len(ids) ==> ids[j] == enumAtI32(aset(e), j)
+//@   ensures[C17] ks_i32 == old(ks_i32)
+
+// The exported genesis lists exactly the paused actions (the enumeration of the set), and is valid:
+// every identifier supported (store invariant), none twice (an enumeration has no repetitions).
+//@ func (e *Executor) ExportGenesis(ctx) (g)
+//@   requires[inv] e != nil && e.logger != nil && storedActionsOK(e)
+//@   modifies it_pos, it_set
+//@   ensures[C17] g != nil && len(g.PausedActionIds) == enumLenI32(aset(e)) && forall j int trigger(g.PausedActionIds[j]) :: 0 <= j && j < len(g.PausedActionIds) ==> g.PausedActionIds[j] == enumAtI32(aset(e), j)
+//@   ensures[C17] g != nil && actIdsOK(g)
+//@   ensures[C17] actIdsDistinct(g)
+//@   ensures[C17] enumFactsI32(aset(e))
+//@   ensures[C17] ks_i32 == old(ks_i32)
+
+// Round trip (C17): a set rebuilt from its own enumeration is the same set. With the contracts of
+// ExportGenesis (the list is the enumeration of the stored set S) and InitGenesis (on an empty store the
+// resulting set T has T[k] exactly for the listed k) this gives T == S pointwise: initialising a fresh
+// chain from an exported genesis restores the pause set, and re-exporting enumerates the same set.
+//@ lemma[C17] enumRoundTripI32: forall S (Array Int Bool), k int :: enumFactsI32(S) ==> (S[k] <==> (exists j int :: 0 <= j && j < enumLenI32(S) && enumAtI32(S, j) == k))
